@@ -129,6 +129,29 @@ Theorem C20_file_roundtrip_output :
 Proof. exact output_roundtrip. Qed.
 Print Assumptions C20_file_roundtrip_output.
 
+(** histories on one path: the same path intercepted again and again, the file rewritten in between (other bytes of
+    the same or of another length; modification time and inode are no inputs of the handlers) - every recording is
+    made of what the file holds at ITS interception, for outputs (holders) and inputs (files restored at the replayed path) *)
+Theorem C20_history_output :
+  forall (qp : list N -> str) (qp_dec : str -> list N), (forall b, bytes_ok b = true -> qp_dec (qp b) = b) ->
+  forall h args kwargs p (hist : list fs_oracle) (bs : list (list N)),
+    passes_path h args kwargs p -> str_ok p = true -> Forall2 (holds_at h p) hist bs ->
+    map (fun o : fs_oracle => output_trip h (fst o) (snd o) qp qp_dec args kwargs) hist
+    = map (fun b => (Replayed (Ans (Holder b (VStr p))), [p])) bs.
+Proof. exact output_history. Qed.
+Print Assumptions C20_history_output.
+
+Theorem C20_history_input :
+  forall (qp : list N -> str) (qp_dec : str -> list N), (forall b, bytes_ok b = true -> qp_dec (qp b) = b) ->
+  forall h writable args_rec kw_rec args_play kw_play p_rec p_play (fs_play : fstate)
+         (hist : list fs_oracle) (bs : list (list N)),
+    passes_path h args_rec kw_rec p_rec -> passes_path h args_play kw_play p_play ->
+    str_ok p_rec = true -> writable p_play = true -> Forall2 (holds_at h p_rec) hist bs ->
+    map (fun o : fs_oracle => input_trip h (fst o) (snd o) writable qp qp_dec args_rec kw_rec args_play kw_play fs_play) hist
+    = map (fun b => (Replayed (Ans p_play, fs_set p_play b fs_play), [p_rec])) bs.
+Proof. exact input_history. Qed.
+Print Assumptions C20_history_input.
+
 (** in particular a file whose CONTENT is the placeholder text comes back as a file, not as "above limit" *)
 Theorem C20_file_roundtrip_placeholder_content :
   forall (qp : list N -> str) (qp_dec : str -> list N), (forall b, bytes_ok b = true -> qp_dec (qp b) = b) ->
@@ -296,6 +319,26 @@ Module NonVacuity.
     run [stored content; stored PLACEHOLDER; stored []] = Some [] /\
     run [stored []; stored content; stored content] = Some content.
   Proof. vm_compute. repeat split. Qed.
+
+  (* the same path intercepted twice, rewritten in between with other bytes of the SAME length *)
+  Definition content2 : list N := [0; 255; 10; 13; 10; 32; 61; 201]%N ++ PLACEHOLDER.
+  Definition fs2 : fs_table := [(U"/in/rec", (32%Z, content2))].
+  Definition history : list fs_oracle := [(fs_size fs, fs_read fs); (fs_size fs2, fs_read fs2); (fs_size fs, fs_read fs)].
+  Example history_hypotheses :
+    Forall2 (holds_at h (U"/in/rec")) history [content; content2; content] /\ content <> content2 /\
+    length content = length content2.
+  Proof.
+    assert (W1 : holds_at h (U"/in/rec") (fs_size fs, fs_read fs) content).
+    { split; [|split; reflexivity]. exists 32%Z. split; [reflexivity|]. unfold Qle. cbn. discriminate. }
+    assert (W2 : holds_at h (U"/in/rec") (fs_size fs2, fs_read fs2) content2).
+    { split; [|split; reflexivity]. exists 32%Z. split; [reflexivity|]. unfold Qle. cbn. discriminate. }
+    split; [unfold history; constructor; [exact W1|]; constructor; [exact W2|]; constructor; [exact W1|]; constructor|].
+    split; [intro E; vm_compute in E; discriminate E | reflexivity].
+  Qed.
+  Example history_instance :
+    map (fun o : fs_oracle => output_trip h (fst o) (snd o) qp_id qp_id [self; AStr (U"/in/rec")] []) history
+    = map (fun b => (Replayed (Ans (Holder b (VStr (U"/in/rec")))), [U"/in/rec"])) [content; content2; content].
+  Proof. vm_compute. reflexivity. Qed.
 
   Example above_limit_hypotheses :
     passes_path h [self] [(U"path", AStr (U"/in/big"))] (U"/in/big") /\ beyond_limit h (fs_size fs) (U"/in/big").
